@@ -26,7 +26,7 @@ from . import _wsrig as R
 
 ID = "C14"
 LEVEL = "exploration"
-QUICK_N = 56000
+QUICK_N = 40000
 THOROUGH_N = 1400000
 CHUNK = 250
 NO_SHRINK = ()
